@@ -3,6 +3,7 @@
 //! Writes protocol lines (see lean/Driver/Proto.lean) to stdout.
 mod common;
 mod csvrt;
+mod layout;
 mod ledger;
 mod rng;
 
@@ -101,6 +102,17 @@ fn main() {
                 w.write_all(s.as_bytes()).unwrap();
             }
         }
+        "layout" => {
+            let mut r = rng::Rng::new(seed);
+            for i in 0..count {
+                let mut cr = r.fork();
+                let c = layout::gen_case(&mut cr);
+                let mut s = String::new();
+                layout::run_case(&format!("Y{}-{}", seed, i), &c, &mut s);
+                w.write_all(s.as_bytes()).unwrap();
+            }
+        }
+        "layout-replay" => replay_stdin(&mut w, layout::replay),
         "csvrt-replay" => replay_stdin(&mut w, csvrt::replay),
         f => {
             eprintln!("unknown family {}", f);
